@@ -44,6 +44,10 @@ type Case struct {
 	Progs [][]Op   `json:"progs,omitempty"` // hooked: one program per actor
 	Sched []int    `json:"sched,omitempty"`
 	Tags  []string `json:"tags"`
+	// two-node families (remote.go)
+	BS     []int  `json:"bs,omitempty"`     // remote: the actors living on node B
+	NoTrap []int  `json:"notrap,omitempty"` // remote: actors that do not trap exit signals
+	Mode   string `json:"mode,omitempty"`   // rstress
 }
 
 type pub struct {
@@ -68,6 +72,8 @@ type worker struct {
 	res    map[gen.Atom][]string
 	termCh chan struct{}
 	onTerm func()
+	notrap bool     // remote family: does not trap exit signals
+	rname  gen.Atom // remote family: the event name of the case
 }
 
 func newWorker(idx int) *worker {
@@ -81,6 +87,15 @@ func reasonCode(e error) int {
 		return 0
 	case gen.TerminateReasonNormal:
 		return 1
+	}
+	if e != nil {
+		// a reason that travelled over the network is a decoded value, possibly wrapped
+		switch {
+		case strings.HasSuffix(e.Error(), gen.ErrUnregistered.Error()):
+			return 0
+		case strings.HasSuffix(e.Error(), gen.TerminateReasonNormal.Error()):
+			return 1
+		}
 	}
 	return 9
 }
@@ -103,7 +118,7 @@ func errCode(e error) string {
 	return "RErr 9"
 }
 
-func (w *worker) Init(args ...any) error { w.SetTrapExit(true); return nil }
+func (w *worker) Init(args ...any) error { w.SetTrapExit(!w.notrap); return nil }
 
 func (w *worker) HandleMessage(from gen.PID, message any) error {
 	switch m := message.(type) {
@@ -140,6 +155,12 @@ func (w *worker) HandleEvent(ev gen.MessageEvent) error {
 }
 
 func (w *worker) Terminate(reason error) {
+	if w.notrap && reason != gen.TerminateReasonNormal {
+		// terminated by the exit signal of the event it was linked with
+		w.mu.Lock()
+		w.exits[w.rname] = append(w.exits[w.rname], reasonCode(reason))
+		w.mu.Unlock()
+	}
 	if w.onTerm != nil {
 		w.onTerm()
 	}
@@ -981,7 +1002,7 @@ func head(l []pub, n int) []pub {
 
 func main() {
 	if len(os.Args) < 2 {
-		fmt.Println("usage: event seq|hooked|stress -n N -out file [-replay file]")
+		fmt.Println("usage: event seq|hooked|stress|remote|rstress -n N -out file [-replay file] [-modes a,b]")
 		os.Exit(2)
 	}
 	sub := os.Args[1]
@@ -990,6 +1011,7 @@ func main() {
 	outp := fs.String("out", "", "output file")
 	replay := fs.String("replay", "", "replay file written by bin/check")
 	known := fs.String("known", "", "comma separated tags of known findings whose input classes are generated")
+	modes := fs.String("modes", "", "rstress: comma separated race families (sub-alone, sub-shared, unreg)")
 	fs.Parse(os.Args[2:])
 	for _, t := range strings.Split(*known, ",") {
 		if t != "" {
@@ -1016,6 +1038,35 @@ func main() {
 			o.Stats["op:"+op.K]++
 		}
 	}
+	emitRemote := func(c Case) {
+		startPair()
+		if os.Getenv("C18_DEBUG") != "" {
+			b, _ := json.Marshal(c)
+			fmt.Fprintln(os.Stderr, string(b))
+		}
+		o.Add(runRemoteCase(c), c)
+		o.Stats["histories"]++
+		o.Stats["ops"] += len(c.Ops)
+		o.Stats["actors-on-B"] += len(c.BS)
+		for _, op := range c.Ops {
+			o.Stats["op:"+op.K]++
+			for _, x := range c.BS {
+				if x == op.A {
+					o.Stats["op-by-remote:"+op.K]++
+				}
+			}
+		}
+	}
+	rmodes := func() []string {
+		var l []string
+		for _, m := range strings.Split(*modes, ",") {
+			if m != "" {
+				l = append(l, m)
+			}
+		}
+		return l
+	}
+	defer stopPair()
 	emitHooked := func(c Case) {
 		t, full := runHookedCase(c)
 		cc := c
@@ -1041,6 +1092,11 @@ func main() {
 			emitSeq(rp.Case)
 		case "hooked":
 			emitHooked(rp.Case)
+		case "remote":
+			emitRemote(rp.Case)
+		case "rstress":
+			startPair()
+			rstress(*n, util.Rng(5), o, []string{rp.Case.Mode})
 		default:
 			stress(*n, util.Rng(3), o)
 			stressZeroToken(*n*100, o)
@@ -1070,6 +1126,21 @@ func main() {
 	case "stress":
 		stress(*n, util.Rng(3), o)
 		stressZeroToken(*n*100, o)
+	case "remote":
+		r := util.Rng(4)
+		for _, c := range corpusRemote() {
+			emitRemote(c)
+		}
+		for len(o.Cases) < *n {
+			emitRemote(genRemote(r, &seqBase))
+		}
+	case "rstress":
+		startPair()
+		m := rmodes()
+		if len(m) == 0 {
+			m = []string{"sub-alone", "sub-shared", "unreg"}
+		}
+		rstress(*n, util.Rng(5), o, m)
 	default:
 		fmt.Println("unknown sub-command", sub)
 		os.Exit(2)
